@@ -80,6 +80,23 @@ def families(tier):
     # the grammar-generated corpus shared by the bus properties (vsched/gen.py), judged by this property's oracle
     from .. import gen
     out += gen.family('C15', tier, params=dict(ps='gen', when='paused', tmo=None), timeouts=(None, 0.5) if tier == 'thorough' else (None,), main_mode='idle', allow_forward=(tier == 'thorough'))
+    # two buses: an event that already completed on A is dispatched to B while B is busy and a waiter is inside B.wait_until_idle()
+    for hshape, extra in itertools.product(('pause', 'ret'), (0, 1)):
+        hs = [dict(bus='A', pat='Q', name='hqA', prog=[('ret', 1)]), dict(bus='B', pat='Q', name='hqB', prog=[('pause',)] if hshape == 'pause' else [('ret', 2)]),
+              dict(bus='B', pat='G', name='hgB', prog=[('pause',)])]
+        main = [('disp', 'A', 'Q', 'await'), ('disp', 'B', 'G0', 'await'), ('sleep', 0.25), ('idle', 'B'), ('pause',), ('idle', 'B')]
+        actor = [('sleep', 0.2), ('pause',), ('disp', 'B', 'G1', 'ff'), ('redisp', 'B', 'Q')] + ([('pause',), ('disp', 'B', 'G2', 'ff')] if extra else [])
+        # and the producer-chain variant: the waiter starts while G0 is in flight, a producer dispatches G1 the moment G0 completes, the completed Q is replayed onto B meanwhile
+        main2 = [('disp', 'A', 'Q', 'await'), ('disp', 'B', 'G0', 'ff'), ('idle', 'B'), ('pause',)]
+        actors2 = [[('await', 'G0'), ('disp', 'B', 'G1', 'ff')], [('pause',), ('redisp', 'B', 'Q')] + ([('pause',), ('disp', 'B', 'G2', 'ff')] if extra else [])]
+        for order in (['A', 'B'], ['B', 'A']):
+            out.append(dict(prop='C15', family='c15.idle.race_after_idle', id=f'c15/race3-{hshape}-x{extra}-o{"".join(order)}', cfg=dict(cfg, bound=3 if not deep else 4, cap=6000 if not deep else 60000),
+                            params=dict(ps='race', when='after', tmo=None),
+                            scn=dict(buses={'A': {}, 'B': {}}, order=order, handlers=hs, main=main2, actors=actors2, forwards=[], settle=2.0)))
+        for order in (['A', 'B'], ['B', 'A']):
+            out.append(dict(prop='C15', family='c15.idle.race_after_idle', id=f'c15/race2-{hshape}-x{extra}-o{"".join(order)}', cfg=dict(cfg, bound=3 if not deep else 4, cap=6000 if not deep else 60000),
+                            params=dict(ps='race', when='after', tmo=None),
+                            scn=dict(buses={'A': {}, 'B': {}}, order=order, handlers=hs, main=main, actors=[actor], forwards=[], settle=2.0)))
     return out
 
 
@@ -107,16 +124,19 @@ def oracle(spec, res):
         if d['q'] or d['pending'] or d['started']:
             out.append(V('returned_while_bus_not_idle', f'{d}', after=ps))
         for seq, bus, ev, who, via in tr.accepted(d['bus']):
-            if seq > d['begin']:
+            # every event accepted before the call RETURNS counts: between wait_until_idle()'s last look at the bus and its return nothing else runs,
+            # so an event accepted before that instant is either visible to it (queued / pending / started) or must be finished
+            if seq > d['end']:
                 continue
+            before_call = seq <= d['begin']
             for h in spec['scn']['handlers']:
                 if h['bus'] == bus and h['pat'] == ev[0]:
                     ent = [en for en in tr.enters if en[2] == bus and en[3] == h['name'] and en[4] == ev]
                     ex = [x for x in tr.exits if x[2] == bus and x[3] == h['name'] and x[4] == ev]
                     if ent and (not ex or ex[0][0] > d['end']):
-                        out.append(V('returned_before_earlier_event_finished', f'{bus}: {ev} accepted at seq {seq} < call {d["begin"]}; handler {h["name"]} still running at return {d["end"]}', after=ps))
+                        out.append(V('returned_before_earlier_event_finished', f'{bus}: {ev} accepted at seq {seq} ({"before" if before_call else "during"} the call {d["begin"]}..{d["end"]}); handler {h["name"]} still running at return', after=ps))
                     if not ent and ps not in ('recurse',) and any(en[0] > d['end'] and en[2] == bus and en[3] == h['name'] and en[4] == ev for en in tr.enters):
-                        out.append(V('returned_before_earlier_event_started', f'{bus}: {ev} accepted at seq {seq} < call {d["begin"]}; handler {h["name"]} entered after return', after=ps))
+                        out.append(V('returned_before_earlier_event_started', f'{bus}: {ev} accepted at seq {seq} ({"before" if before_call else "during"} the call {d["begin"]}..{d["end"]}); handler {h["name"]} entered only after the return', after=ps))
     if v == 'raised':
         out.append(V('main_raised', str(res['verdict'])))
     return out[:6]
